@@ -657,6 +657,13 @@ def runHistory (E : Env) (cfg : Cfg) : St → List Call → St × List (List Str
     let rest := runHistory E cfg r.1 cs
     (rest.1, r.2 :: rest.2)
 
+/-- `clean_content(text, …)` with ONE string (`if not isinstance(lines, list): return _clean_line(lines)`, line 147-149):
+the whole text — line breaks included — goes through the parsers as a single "line"; this is what a `split=False`
+command stores and what `_clean_facts` passes for a fact string.  `none` = `None` (a pattern / the allow list dropped it) -/
+def cleanString (E : Env) (cfg : Cfg) (st : St) (call : Call) (text : Str) : St × Option Str :=
+  let r := cleanLine E cfg call (st, call.allowlist.getD []) text
+  (r.1.1, r.2)
+
 /-! ## `Cleaner.clean_file` (cleaner/__init__.py 163-199): read, clean, replace the WHOLE content -/
 
 /-- `fh.readlines()`: the text cut behind every `'\n'` — and nowhere else (not at `\x0b`, `\x0c`, `\x1c`-`\x1e`, `\x85`,
